@@ -291,8 +291,38 @@ ExpectWidth(v, ft, dm) ==
               Exp("ok", "", v.fl \cup {"bitfield-width"}, <<>>, 0,
                   Mk([j \in 1..Len(xs) |-> [x |-> xs[j], r |-> WAnd(xs[j], mask)]]))
 
+\* initialiser of a bit-field member (6.7.9p11: converted as by assignment to the type of the member; the type of
+\* a bit-field of width W is an integer type of W bits, 6.7.2.1p10).  6.3.1.3: an unsigned bit-field receives the
+\* value modulo 2^W; a signed one receives the value when -2^(W-1) <= value < 2^(W-1), otherwise the result is
+\* implementation-defined and the specification gives no verdict on that member (note "bf-signed-open").
+\* A plain `int` bit-field is taken as signed (implementation-defined, 6.7.2.1p5; ppci's and gcc's choice).
+\* BfConvert -> [judged, w] : w = the member's value as the int / unsigned int word that reading the member yields
+BfConvert(v, W, sgn, dm) ==
+    LET n == dm.ib
+        wd == Wide(v.t, v.w, dm)
+        x == WResize(wd, n, TRUE)                    \* the low 8n bits (W <= 8n - 1)
+        sh == 8 * n - W
+        up == WShl(x, sh) IN
+    IF sgn THEN LET sx == WShrA(up, sh) IN [judged |-> WResize(sx, WideB, TRUE) = wd, w |-> sx, changed |-> FALSE]
+    ELSE LET zx == WShrL(up, sh) IN [judged |-> TRUE, w |-> zx, changed |-> WResize(zx, WideB, FALSE) # wd]
+\* members: sequence of [w : width, s : signed, e : expression]; every member is initialised and read back by its
+\* own function.  probes: x = <<member index>>, r = the word the reader of that member must return
+RECURSIVE BfMembers(_, _, _, _, _)
+BfMembers(ms, k, env, dm, acc) ==
+    IF k > Len(ms) THEN acc
+    ELSE LET v == Eval(ms[k].e, env, dm) IN
+         IF ~IsOk(v) THEN NoExp(v)
+         ELSE IF ms[k].w < 1 \/ ms[k].w > 8 * dm.ib - 1 THEN NoExp(Skip("bit-field width outside the model"))
+         ELSE LET c == BfConvert(v, ms[k].w, ms[k].s, dm)
+                  fl == acc.fl \cup v.fl \cup {"bitfield-init"}
+                        \cup (IF c.changed THEN {"bfU"} ELSE {}) \cup (IF c.judged THEN {} ELSE {"bf-signed-open"}) IN
+              BfMembers(ms, k + 1, env, dm,
+                        Exp("ok", "", fl, <<>>, 0,
+                            IF c.judged THEN Append(acc.probes, [x |-> <<k>>, r |-> c.w]) ELSE acc.probes))
+ExpectBfInit(ms, env, dm) == BfMembers(ms, 1, env, dm, Exp("ok", "", {}, <<>>, 0, <<>>))
+
 DataSites == {"init", "static", "lstatic", "element", "member", "enum"}
-\* rec = [site, dm, dest, e, enums, ...]
+\* rec = [site, dm, dest, e, enums, members, ...]
 Expect(rec) ==
     LET dm == rec.dm
         env == EnumEnv(rec.enums, dm)
@@ -301,4 +331,5 @@ Expect(rec) ==
       [] rec.site = "array"     -> ExpectBound(v, rec.dest, dm)
       [] rec.site = "case"      -> ExpectCase(v, rec.dest, dm)
       [] rec.site = "bitfield"  -> ExpectWidth(v, rec.dest, dm)
+      [] rec.site = "bfinit"    -> ExpectBfInit(rec.members, env, dm)
 =============================================================================
